@@ -1,46 +1,72 @@
 /-
 C01 — incremental answers equal a from-scratch evaluation, for the core engine model
-(`Model/EngineCore.lean`).  `cur p s k` is the from-scratch value of `k` on the inputs committed
-in `s` (`evalSpec`, which never looks at cached nodes); `Inv` is the engine invariant
-(`Lemmas/EngineCore.lean`); it holds initially and is preserved by every operation.
+(`Model/EngineCore.lean`: input, normal and external-input keys; ordered reads and unordered read
+groups).  `cur p s k` is the from-scratch value of `k` on the inputs committed in `s` and the
+external values of `s` (`evalSpec`, which never looks at cached values of normal keys); the external
+value of a key is what its executor returned at its first demand / the last `refresh` (`pinsOf`),
+and what it returns on the current world if it was never demanded (`extOf`); `Inv` is the engine
+invariant (`Lemmas/EngineCore.lean`); it holds initially and is preserved by every operation.
 -/
 import QbiceVerif.Lemmas.EngineCoreEx
 namespace Qbice.Core
 
 /-- "every value returned by a query equals the value a from-scratch evaluation on the currently
     committed inputs would produce": a successful query in a state satisfying the invariant returns
-    `cur p s k`, keeps the invariant, and changes neither the committed inputs nor the epoch. -/
+    `cur p s k`, keeps the invariant, and changes neither the committed inputs nor the epoch, nor
+    the external values (an external key demanded for the first time is pinned at the value of its
+    executor on the current world, which is what `extOf` said before), nor the world. -/
 theorem core_query_sound {p : Program} (wf : WF p) {s : St} (inv : Inv p s) {k fuel : Nat}
     (hk : k < fuel) {v : Val} {s' : St} (h : query p fuel k s = .ok (v, s')) :
-    cur p s k = some v ∧ Inv p s' ∧ inputsOf s' = inputsOf s ∧ s'.epoch = s.epoch := by
+    cur p s k = some v ∧ Inv p s' ∧ inputsOf s' = inputsOf s ∧ s'.epoch = s.epoch ∧
+      extOf p s' = extOf p s ∧ s'.world = s.world := by
   obtain ⟨i, f, _, c, _⟩ := (query_spec wf fuel k hk s inv).ok h
-  exact ⟨c, i, f.inputs, f.epoch⟩
+  exact ⟨c, i, f.inputs, f.epoch, f.ext, f.world⟩
 
 example : WF exP ∧ Inv exP exS ∧ 3 < fuelFor exP ∧
     (query exP (fuelFor exP) 3 exS).toOption.map (·.1) = some 0 :=
   ⟨exP_wf, exS_inv, by decide, by decide⟩
 
+/-- non-vacuity with an external key and an unordered group: in `exV` the external key 1 was
+    computed when world cell 1 was 7; the cell is 9 now but no refresh happened: the from-scratch
+    reference and the query both answer `2 * (1 + 7)`. -/
+example : WF exQ ∧ Inv exQ exV ∧ 3 < fuelFor exQ ∧ exV.world 1 = 9 ∧ extOf exQ exV 1 = some 7 ∧
+    cur exQ exV 3 = some 16 ∧ (query exQ (fuelFor exQ) 3 exV).toOption.map (·.1) = some 16 :=
+  ⟨exQ_wf, exV_inv, by decide, by decide, by decide, by decide, by decide⟩
+
 /-- "an input session (epoch bump, writes, commit with dirty propagation) re-establishes the engine
     invariant; each write reports Fresh / Updated / Unchanged exactly by presence / equality of the
     previously committed value, and the committed inputs afterwards are the previous ones overridden
-    by the writes in order". -/
-theorem core_session_inv {p : Program} {s : St} (inv : Inv p s) {sets : List (Key × Val)}
-    {rs : List SetRes} {s' : St} (h : session p sets s = .ok (rs, s')) :
-    Inv p s' ∧ rs = writeResults sets (inputsOf s) ∧
-      inputsOf s' = applyWrites sets (inputsOf s) ∧ s'.epoch = s.epoch + 1 := by
-  obtain ⟨a, b, c, d, _⟩ := session_spec inv h
-  exact ⟨a, b, c, d⟩
+    by the writes in order"; the world afterwards is the previous one overridden by the world writes
+    of the session, and the pinned external values are the previous ones with, under a `refresh`,
+    every pinned key re-evaluated on the new world (`applyRefresh`). -/
+theorem core_session_inv {p : Program} {s : St} (inv : Inv p s) {ws : List Write}
+    {rs : List SetRes} {s' : St} (h : session p ws s = .ok (rs, s')) :
+    Inv p s' ∧ rs = writeResults ws (inputsOf s) ∧
+      inputsOf s' = applyWrites ws (inputsOf s) ∧ s'.epoch = s.epoch + 1 ∧
+      s'.world = applyWorld ws s.world ∧
+      pinsOf s' = applyRefresh p (applyWorld ws s.world) ws (pinsOf s) := by
+  obtain ⟨a, b, c, d, e, f, _⟩ := session_spec inv h
+  exact ⟨a, b, c, d, e, f⟩
 
 example : Inv exP exT ∧
-    (session exP [(0, 0), (1, 5)] exT).toOption.map (·.1) = some [.updated, .unchanged] :=
+    (session exP [.set 0 0, .set 1 5] exT).toOption.map (·.1) = some [.updated, .unchanged] :=
   ⟨exT_inv, by decide⟩
+
+/-- a refresh that changes the value of an external key: pinned at 7, world cell now 9 -/
+example : Inv exQ exV ∧ pinsOf exV 1 = some 7 ∧
+    (session exQ [.refresh] exV).toOption.map (fun r => (r.1, pinsOf r.2 1, r.2.log)) =
+      some ([.refreshed], some 9, [1]) :=
+  ⟨exV_inv, by decide, by decide⟩
 
 /-- "for every history of sessions and rounds run from the initial state, every value returned by
     every round equals the from-scratch value on the inputs committed at that point (and every write
     result is the reference one)": `OutOK` compares the outputs with `evalSpec` / `writeResults` on
-    the reference input map, starting from no inputs; the final state satisfies the invariant. -/
+    the reference state (input map, pinned external values, world), starting from no inputs, no
+    pinned value and the all-zero world; the reference pins an external key at the world of the round
+    in which its executor is reported to have run, and re-pins all of them at a `refresh`; the final
+    state satisfies the invariant. -/
 theorem core_history_sound {p : Program} (wf : WF p) {ops : List Op} {outs : List OpOut} {s' : St}
-    (h : runOps p ops {} = .ok (outs, s')) : OutOK p ops outs (fun _ => none) ∧ Inv p s' := by
+    (h : runOps p ops {} = .ok (outs, s')) : OutOK p ops outs Ref.init ∧ Inv p s' := by
   have := (runOps_spec wf ops {} (Inv.init p)).ok h
   exact this
 
@@ -59,8 +85,17 @@ theorem core_history_no_out_of_fuel {p : Program} (wf : WF p) (ops : List Op) :
     `WF`, and a 6-operation history runs to completion with the expected outputs: the conditional
     read disappears after input 0 changes (round 2) and reappears (round 3). -/
 example : WF exP ∧ (runOps exP exOps {}).toOption.map (·.1) =
-    some [.sess [.fresh, .fresh], .round [30, 15], .sess [.updated, .unchanged], .round [0],
-      .sess [.updated], .round [30, 30]] :=
+    some [.sess [.fresh, .fresh], .round [30, 15] [2, 3], .sess [.updated, .unchanged], .round [0] [2, 3],
+      .sess [.updated], .round [30, 30] [2, 3]] :=
   ⟨exP_wf, by decide⟩
+
+/-- non-vacuity with an external key (1) read in an unordered group: first demand pins it at world
+    cell 1 = 7; the cell changes to 9 without a refresh: nothing moves; a `refresh` re-runs its
+    executor (not reported by a round), the dependants are re-executed: `2 * (1 + 9)`; a refresh that
+    returns the same value re-executes nothing else. -/
+example : WF exQ ∧ (runOps exQ exQOps {}).toOption.map (·.1) =
+    some [.sess [.world, .fresh], .round [16] [1, 2, 3], .sess [.world], .round [16, 7] [],
+      .sess [.refreshed], .round [20] [2, 3], .sess [.world, .refreshed], .round [20] []] :=
+  ⟨exQ_wf, by decide⟩
 
 end Qbice.Core
